@@ -890,6 +890,12 @@ class TorConfig:
                     v = [v]
                 v = _ListWrapper(
                     v, functools.partial(self.mark_unsaved, real_name))
+                if real_name in self.unsaved and \
+                   self.unsaved[real_name] is self.config.get(real_name):
+                    # in-place edits of the list Tor no longer has: left
+                    # pending, they would shadow every edit of the new
+                    # list (and be sent instead of it)
+                    del self.unsaved[real_name]
             elif real_name in self.parsers:
                 if v == DEFAULT_VALUE:
                     # the option was reset: as at bootstrap, that
